@@ -331,6 +331,113 @@ type P10Empv2 struct {
 
 func (P10Empv2) TableName() string { return "p10_emps" }
 
+// ---- P11: two belongs-to relations between the same two schemas (self-referential); the second
+// one is added in v2 ----
+type P11 struct {
+	ID        uint `gorm:"primaryKey"`
+	Name      string
+	ManagerID *uint
+	Manager   *P11
+}
+type P11v2 struct {
+	ID        uint `gorm:"primaryKey"`
+	Name      string
+	ManagerID *uint
+	Manager   *P11v2
+	MentorID  *uint
+	Mentor    *P11v2
+}
+
+func (P11v2) TableName() string { return "p11" }
+
+// ---- P12: has-many with its mirrored belongs-to, plus a second belongs-to to the same schema (one
+// in v1, one added in v2) ----
+type P12Author struct {
+	ID    uint `gorm:"primaryKey"`
+	Name  string
+	Books []P12 `gorm:"foreignKey:AuthorID"`
+}
+type P12 struct {
+	ID         uint `gorm:"primaryKey"`
+	Title      string
+	AuthorID   uint
+	Author     P12Author
+	ReviewerID *uint
+	Reviewer   *P12Author
+}
+type P12v2 struct {
+	ID         uint `gorm:"primaryKey"`
+	Title      string
+	AuthorID   uint
+	Author     P12Author
+	ReviewerID *uint
+	Reviewer   *P12Author
+	EditorID   *uint
+	Editor     *P12Author
+}
+
+func (P12v2) TableName() string { return "p12" }
+
+// ---- P13: spellings of boolean and numeric defaults ----
+type P13 struct {
+	ID  uint    `gorm:"primaryKey"`
+	B1  bool    `gorm:"default:1"`
+	Bt  bool    `gorm:"default:t;not null"`
+	Bu  bool    `gorm:"default:T"`
+	Bw  bool    `gorm:"default:TRUE"`
+	Bx  bool    `gorm:"default:True"`
+	B0  bool    `gorm:"default:0"`
+	Bf  bool    `gorm:"default:f"`
+	Bz  bool    `gorm:"default:FALSE"`
+	N5  int64   `gorm:"default:5"`
+	NN  int64   `gorm:"default:-7"`
+	F15 float64 `gorm:"default:1.5"`
+	S   string  `gorm:"default:'it''s'"`
+	S2  string  `gorm:"default:plain"`
+	U8  uint8   `gorm:"default:200"`
+	F3  float64 `gorm:"default:2"`
+}
+type P13v2 struct {
+	ID  uint    `gorm:"primaryKey"`
+	B1  bool    `gorm:"default:1"`
+	Bt  bool    `gorm:"default:t;not null"`
+	Bu  bool    `gorm:"default:T"`
+	Bw  bool    `gorm:"default:TRUE"`
+	Bx  bool    `gorm:"default:True"`
+	B0  bool    `gorm:"default:0"`
+	Bf  bool    `gorm:"default:f"`
+	Bz  bool    `gorm:"default:FALSE"`
+	N5  int64   `gorm:"default:5"`
+	NN  int64   `gorm:"default:-7"`
+	F15 float64 `gorm:"default:1.5"`
+	S   string  `gorm:"default:'it''s'"`
+	S2  string  `gorm:"default:plain"`
+	U8  uint8   `gorm:"default:200"`
+	F3  float64 `gorm:"default:2"`
+	BN  bool    `gorm:"default:1"`
+	N0  int32   `gorm:"default:0"`
+}
+
+func (P13v2) TableName() string { return "p13" }
+
+// ---- P14 (known finding, corpus only): numeric defaults in a spelling other than the canonical
+// one; gorm writes the DDL from the parsed value but compares the tag TEXT on re-migration ----
+type P14 struct {
+	ID uint    `gorm:"primaryKey"`
+	NP int64   `gorm:"default:+5"`
+	NH int64   `gorm:"default:0x10"`
+	F2 float64 `gorm:"default:1.50"`
+}
+type P14v2 struct {
+	ID uint    `gorm:"primaryKey"`
+	NP int64   `gorm:"default:+5"`
+	NH int64   `gorm:"default:0x10"`
+	F2 float64 `gorm:"default:1.50"`
+	X  int64
+}
+
+func (P14v2) TableName() string { return "p14" }
+
 // ---- reorder family: chain and diamond of belongs-to dependencies ----
 type RA struct {
 	ID uint `gorm:"primaryKey"`
